@@ -483,3 +483,45 @@ func sortedKeys(m map[string]*ssa.Function) []string {
 }
 
 var _ = ast.NewIdent
+
+
+type workItem struct {
+	key string
+	fn  *ssa.Function
+	fc  *FuncContract
+}
+
+// Expand resolves a contract key to the functions it covers. A key "f$*"
+// covers every function literal nested in f (optionally filtered by parameter names).
+func (p *Prog) Expand(pkgPath, key string, fc *FuncContract) ([]workItem, bool) {
+	if strings.HasSuffix(key, "$*") {
+		base := p.FindFunc(pkgPath, strings.TrimSuffix(key, "$*"))
+		if base == nil {
+			return nil, false
+		}
+		var out []workItem
+		for _, af := range base.AnonFuncs {
+			if len(fc.ParamNames) > 0 {
+				if len(af.Params) != len(fc.ParamNames) {
+					continue
+				}
+				ok := true
+				for i, prm := range af.Params {
+					if prm.Name() != fc.ParamNames[i] {
+						ok = false
+					}
+				}
+				if !ok {
+					continue
+				}
+			}
+			out = append(out, workItem{funcKey(af), af, fc})
+		}
+		return out, len(out) > 0
+	}
+	fn := p.FindFunc(pkgPath, key)
+	if fn == nil {
+		return nil, false
+	}
+	return []workItem{{key, fn, fc}}, true
+}
